@@ -230,6 +230,11 @@ CHECKS = [
              "its samples are exact +- pairs around m solving the sampling equation for symbolic white noise, the noise -> residual "
              "map has covariance (1 + R^T N^-1 R)^-1; the classic WienerFilterCurvature applied to a field is R^T N^-1 R x + S^-1 x.",
      "design_ref": "DESIGN.md 4/C20"},
+    {"property_id": "C25", "engine": "A", "category": "other", "technique": "crash-point exploration of the real classic optimize_kl: the index of the file-system mutation at which the run is killed and the kill variant (before the operation / after create-truncate) are z3 integers concretised by solver-decided forking; each path executes the real run, kills it (vf.crash), restarts it with resume=True in a fresh process state and compares bit for bit with the uninterrupted run",
+     "note": "Concrete float64 runs (the solver explores the crash-point space only). Bounds: 3 global iterations, MAP / MGVI / mixed schedules, strategies 'all' and 'latest', one crash per history, crash points = every open-for-write / remove / replace below the output directory. Known findings for save_strategy='latest' (known_findings.txt).",
+     "text": "Bounded verification: for every crash point of the run the restarted run finishes and returns the bit-identical final "
+             "samples and mean (strategy 'all': holds after fix 728a40a; strategy 'latest': known findings, in-place overwrite).",
+     "design_ref": "DESIGN.md 4/C25"},
 ]
 
 ALL = [f"C{i:02d}" for i in range(1, 37)]
